@@ -1,9 +1,22 @@
 (** Theory of the declarative reference forest (no implementation involved):
-    - C09: what a partial forest must store lies within what it may store;
-    - C06: observational equivalence of slot lists is a bisimulation for blocks;
-    - C14: canonical proofs depend only on the SET of targets. *)
+    - Part 1 (C09): what a partial forest must store lies within what it may store
+      ([needed_sub_allowed]); Part 4: remembering more never needs less ([needed_mono]);
+    - Part 2 (C06): observational equivalence [equiv] of slot lists (same leaf count, same
+      compressed trees) is a bisimulation for blocks ([equiv_bisim], [equiv_blocks], [undo_equiv]);
+      every observable is a function of the class;
+    - Part 3 (C14): canonical proofs depend only on the SET of targets ([canon_unique],
+      [exp_cached_perm]);
+    - Parts 5, 6: geometry of the layout of a state: coordinates and positions identify nodes
+      ([layout_coord_inj], [layout_npos_inj], [proof_coords_pos_inj]), hence Part 3 without
+      distinctness hypotheses for actual states ([canon_unique_state], [exp_cached_perm_state],
+      [prove_perm]);
+    - Parts 7, 8 (C06): the class-level undo.  The compressed forest before a block is a function
+      of the forest after it, the number of additions, the rows and emptiness of the roots after
+      the deletions and the coordinates and hashes of the deleted leaves ([forest_graft],
+      [unsadd_sadd], [class_undo_spec], [block_class_injective]). *)
 From Utreexo Require Import Spec.Forest Spec.Oracle Spec.Term Proofs.SpecBasics
   Proofs.AbstractModels Proofs.StumpAdd.
+From Utreexo Require Proofs.UtilsGeom Proofs.UtilsGeom2.
 From Coq Require Import List Arith PeanoNat NArith Lia ZifyNat ZifyN ZifyBool Permutation.
 Import ListNotations.
 Local Open Scope nat_scope.
@@ -626,3 +639,1187 @@ Section Canon.
       congruence.
   Qed.
 End Canon.
+
+Arguments equiv {H} HO s s'.
+Arguments leaves_of {H} t.
+Arguments oleaves {H} t.
+Arguments entry_leaves {H} e.
+Arguments prune {H} HO dels t.
+Arguments oprune {H} HO dels t.
+Arguments prune_entry {H} HO dels e.
+Arguments same_set {A} l l'.
+Arguments npos_inj_on {H} rows l.
+
+(** * Part 4 (C09): remembering more leaves never needs less *)
+Section NeededMono.
+  Variable H : Type.
+  Variable HO : ops H.
+
+  Lemma known_set_mono (lay ts ts' : list (node H)) :
+    (forall x, In x ts -> In x ts') ->
+    forall c, In c (known_set lay ts) -> In c (known_set lay ts').
+  Proof.
+    intros Hs c. rewrite !known_set_In. intros (x & Hx & Hc). exists x. split; [apply Hs, Hx|exact Hc].
+  Qed.
+
+  Theorem needed_mono (s : slots H) (R R' : list H) nd nd' :
+    (forall h, In h R -> In h R') ->
+    needed_pos HO s R = Some nd -> needed_pos HO s R' = Some nd' ->
+    forall p, In p nd -> In p nd'.
+  Proof.
+    unfold needed_pos. intros Hsub.
+    destruct (find_leaves HO (layout HO s) R) as [ts|] eqn:E; [|discriminate].
+    destruct (find_leaves HO (layout HO s) R') as [ts'|] eqn:E'; [|discriminate].
+    assert (Hts : forall x, In x ts -> In x ts').
+    { intros x Hx. apply (find_leaves_In H HO _ _ _ E) in Hx as (h & Hh & Hx).
+      apply (find_leaves_In H HO _ _ _ E'). exists h. split; [apply Hsub, Hh|exact Hx]. }
+    pose proof (known_set_mono (layout HO s) ts ts' Hts) as HK.
+    intros [= <-] [= <-] p. rewrite !sortN_In, !dedupN_In, !in_app_iff.
+    intros [Hp|[Hp|Hp]].
+    - left. apply in_map_iff in Hp as (x & <- & Hx). apply in_map, Hts, Hx.
+    - right. right. apply canon_proof_pos_In in Hp as (c & Hc & ->).
+      apply in_map_iff. exists c. split; [reflexivity|].
+      apply proof_coords_In in Hc as (d & Hd & Hr & _ & ->).
+      apply in_flat_map. exists d. split; [apply HK, Hd|]. rewrite Hr. left. reflexivity.
+    - right. right. apply in_map_iff in Hp as (c & <- & Hc).
+      apply in_map_iff. exists c. split; [reflexivity|].
+      apply in_flat_map in Hc as (d & Hd & Hc). apply in_flat_map. exists d. split; [apply HK, Hd|exact Hc].
+  Qed.
+End NeededMono.
+
+(** * Part 5: geometry of the layout of a state.  Every node of [layout HO s] covers the slot range
+    [noff * 2^nrow, (noff + 1) * 2^nrow), ranges of distinct nodes of one row are disjoint, all
+    ranges lie below the leaf count.  Hence coordinates (and positions) identify nodes, and the
+    distinctness hypotheses of Part 3 hold for the layouts of actual states. *)
+Section LayoutGeom.
+  Variable H : Type.
+  Variable HO : ops H.
+  Notation node := (node H).
+  Notation entry := (nat * N * option (ctree H))%type.
+  Local Open Scope N_scope.
+
+  Definition P2 (r : nat) : N := 2 ^ N.of_nat r.
+  Lemma P2_0 : P2 0 = 1.
+  Proof. reflexivity. Qed.
+  Lemma P2_S r : P2 (S r) = 2 * P2 r.
+  Proof. unfold P2. rewrite Nat2N.inj_succ, N.pow_succ_r'. reflexivity. Qed.
+  Lemma P2_pos r : 0 < P2 r.
+  Proof. unfold P2. apply N.neq_0_lt_0, N.pow_nonzero. lia. Qed.
+  Lemma P2_nz r : P2 r <> 0.
+  Proof. pose proof (P2_pos r). lia. Qed.
+  Lemma P2_add a b : P2 (a + b) = P2 a * P2 b.
+  Proof. unfold P2. rewrite Nat2N.inj_add, N.pow_add_r. reflexivity. Qed.
+  Lemma P2_nat k : N.of_nat (2 ^ k) = P2 k.
+  Proof. apply pow2_N. Qed.
+  Lemma P2_lt a b : (a < b)%nat -> P2 a < P2 b.
+  Proof. intros Hab. unfold P2. apply N.pow_lt_mono_r; lia. Qed.
+
+  Definition coord (x : node) : nat * N := (nrow x, noff x).
+  Definition nlo (x : node) : N := noff x * P2 (nrow x).
+  Definition nhi (x : node) : N := (noff x + 1) * P2 (nrow x).
+
+  Lemma nlo_lt_nhi x : nlo x < nhi x.
+  Proof. unfold nlo, nhi. pose proof (P2_pos (nrow x)). lia. Qed.
+
+  Lemma range_disjoint_coord x y : nhi x <= nlo y -> coord x <> coord y.
+  Proof.
+    intros Hd E. pose proof (nlo_lt_nhi x) as Hx. unfold nlo, nhi, coord in *.
+    injection E as Er Eo. rewrite Er, Eo in *. lia.
+  Qed.
+
+  Lemma NoDup_app_disj {A} (l1 l2 : list A) :
+    NoDup l1 -> NoDup l2 -> (forall a, In a l1 -> ~ In a l2) -> NoDup (l1 ++ l2).
+  Proof.
+    induction l1 as [|a l1 IH]; intros N1 N2 Hd; [exact N2|]. cbn [app].
+    inversion N1 as [|a' l' Hnin Hnd]; subst. constructor.
+    - rewrite in_app_iff. intros [Hin|Hin]; [exact (Hnin Hin)|]. exact (Hd a (or_introl eq_refl) Hin).
+    - apply IH; [exact Hnd|exact N2|]. intros b Hb. apply Hd. right. exact Hb.
+  Qed.
+
+  Lemma NoDup_map_eq {A B} (f : A -> B) (l : list A) x y :
+    NoDup (map f l) -> In x l -> In y l -> f x = f y -> x = y.
+  Proof.
+    induction l as [|a l IH]; intros Hn Hx Hy E; [destruct Hx|].
+    cbn [map] in Hn. inversion Hn as [|b bs Hnin Hnd]; subst.
+    destruct Hx as [<-|Hx], Hy as [<-|Hy]; [reflexivity| | |apply IH; assumption].
+    - exfalso. apply Hnin. rewrite E. apply in_map, Hy.
+    - exfalso. apply Hnin. rewrite <- E. apply in_map, Hx.
+  Qed.
+
+  (** ** one tree *)
+  Lemma place_tree_range t : forall r o isroot tr x,
+    In x (place_tree t r o isroot tr) ->
+    (nrow x <= r)%nat /\ o * P2 r <= nlo x /\ nhi x <= (o + 1) * P2 r /\ ntree x = tr.
+  Proof.
+    induction t as [h|h l IHl rr IHr]; intros r o isroot tr x Hx.
+    - destruct Hx as [<-|[]]. unfold nlo, nhi. cbn [nrow noff ntree]. repeat split; lia.
+    - destruct Hx as [<-|Hx]; [unfold nlo, nhi; cbn [nrow noff ntree]; repeat split; lia|].
+      destruct r as [|r']; [destruct Hx|]. rewrite P2_S.
+      apply in_app_or in Hx as [Hx|Hx].
+      + destruct (IHl _ _ _ _ _ Hx) as (A & B & C & D). repeat split; [lia|lia|lia|exact D].
+      + destruct (IHr _ _ _ _ _ Hx) as (A & B & C & D). repeat split; [lia|lia|lia|exact D].
+  Qed.
+
+  Lemma place_tree_NoDup t : forall r o isroot tr,
+    NoDup (map coord (place_tree t r o isroot tr)).
+  Proof.
+    induction t as [h|h l IHl rr IHr]; intros r o isroot tr.
+    - cbn [place_tree map]. constructor; [intros []|constructor].
+    - cbn [place_tree map]. constructor.
+      + destruct r as [|r']; [intros []|]. intros Hin.
+        apply in_map_iff in Hin as (x & E & Hx).
+        assert (Hr : (nrow x <= r')%nat).
+        { apply in_app_or in Hx as [Hx|Hx]; [apply (place_tree_range l _ _ _ _ _ Hx)|
+                                              apply (place_tree_range rr _ _ _ _ _ Hx)]. }
+        unfold coord in E. cbn [nrow noff] in E. injection E as E _. lia.
+      + destruct r as [|r']; [constructor|]. rewrite map_app. apply NoDup_app_disj; [apply IHl|apply IHr|].
+        intros c Hc1 Hc2. apply in_map_iff in Hc1 as (x & Ex & Hx). apply in_map_iff in Hc2 as (y & Ey & Hy).
+        destruct (place_tree_range l _ _ _ _ _ Hx) as (_ & _ & C & _).
+        destruct (place_tree_range rr _ _ _ _ _ Hy) as (_ & B & _ & _).
+        apply (range_disjoint_coord x y); [lia|congruence].
+  Qed.
+
+  Lemma place_tree_head (t : ctree H) r o isroot tr :
+    exists y, In y (place_tree t r o isroot tr) /\ nrow y = r /\ noff y = o /\ nroot y = isroot.
+  Proof. destruct t; eexists; (split; [left; reflexivity|]); cbn; auto. Qed.
+
+  (** ** one entry *)
+  Lemma place_entry_geom k lo t m : lo = m * P2 k ->
+    let L := place_entry HO (k, lo, t) in
+    NoDup (map coord L) /\
+    (forall x, In x L -> (nrow x <= k)%nat /\ lo <= nlo x /\ nhi x <= lo + P2 k /\ ntree x = k) /\
+    (exists y, In y L /\ nrow y = k /\ noff y = m /\ nroot y = true).
+  Proof.
+    intros Hlo. cbv zeta. unfold place_entry. fold (P2 k).
+    assert (Hm : lo / P2 k = m) by (rewrite Hlo; apply N.div_mul, P2_nz). rewrite Hm.
+    destruct t as [c|].
+    - split; [apply place_tree_NoDup|]. split; [|apply place_tree_head].
+      intros x Hx. destruct (place_tree_range c _ _ _ _ _ Hx) as (A & B & C & D).
+      repeat split; [exact A|lia|lia|exact D].
+    - split; [cbn [map]; constructor; [intros []|constructor]|]. split.
+      + intros x [<-|[]]. unfold nlo, nhi. cbn [nrow noff ntree]. repeat split; lia.
+      + eexists. split; [left; reflexivity|]. cbn. auto.
+  Qed.
+
+  (** ** the trees of a state *)
+  Definition tree_ok (L : list node) (x : node) : Prop :=
+    exists m, (nrow x <= ntree x)%nat /\ m * P2 (ntree x) <= nlo x /\
+              nhi x <= (m + 1) * P2 (ntree x) /\
+              exists y, In y L /\ nrow y = ntree x /\ noff y = m /\ nroot y = true.
+
+  Lemma tree_ok_incl (L L' : list node) x : (forall y, In y L -> In y L') -> tree_ok L x -> tree_ok L' x.
+  Proof.
+    intros Hs (m & A & B & C & y & Hy & D). exists m. repeat split; try assumption.
+    exists y. split; [apply Hs, Hy|exact D].
+  Qed.
+
+  Lemma entry_tree_ok k lo t m : lo = m * P2 k ->
+    forall x, In x (place_entry HO (k, lo, t)) -> tree_ok (place_entry HO (k, lo, t)) x.
+  Proof.
+    intros Hlo x Hx. destruct (place_entry_geom k lo t m Hlo) as (_ & Hr & Hy). cbv zeta in *.
+    destruct (Hr x Hx) as (A & B & C & D). exists m. rewrite D. repeat split; [exact A|lia|lia|exact Hy].
+  Qed.
+
+  Lemma trees_geom k : forall lo (s : slots H) m,
+    lo = m * P2 (S k) -> (length s < 2 ^ S k)%nat ->
+    let L := flat_map (place_entry HO) (trees HO k lo s) in
+    NoDup (map coord L) /\
+    (forall x, In x L -> lo <= nlo x /\ nhi x <= lo + N.of_nat (length s)) /\
+    (forall x, In x L -> tree_ok L x).
+  Proof.
+    induction k as [|k IH]; intros lo s m Hlo Hlt; cbv zeta.
+    - rewrite trees_0. change (2 ^ 1)%nat with 2%nat in Hlt.
+      destruct (Nat.leb_spec 1 (length s)) as [Hge|Hsmall].
+      + cbn [flat_map]. rewrite app_nil_r.
+        assert (Hlo0 : lo = lo * P2 0) by (rewrite P2_0; lia).
+        destruct (place_entry_geom 0 lo (compress HO 0 (firstn 1 s)) lo Hlo0) as (A & B & C).
+        cbv zeta in *. split; [exact A|]. split.
+        * intros x Hx. destruct (B x Hx) as (_ & B1 & B2 & _). rewrite P2_0 in B2. lia.
+        * apply (entry_tree_ok 0 lo _ lo Hlo0).
+      + cbn [flat_map map]. split; [constructor|]. split; intros x [].
+    - rewrite trees_S. rewrite P2_S in Hlo.
+      assert (Hpow : (2 ^ S (S k) = 2 * 2 ^ S k)%nat) by apply Nat.pow_succ_r'.
+      destruct (Nat.leb_spec (2 ^ S k) (length s)) as [Hge|Hsmall].
+      + cbn [flat_map].
+        set (t0 := compress HO (S k) (firstn (2 ^ S k) s)).
+        set (lo' := lo + N.of_nat (2 ^ S k)). set (s' := skipn (2 ^ S k) s).
+        assert (Hlo0 : lo = (2 * m) * P2 (S k)) by lia.
+        pose proof (P2_nat (S k)) as HP.
+        assert (Hlo' : lo' = (2 * m + 1) * P2 (S k)) by (unfold lo'; lia).
+        assert (Hl' : length s' = (length s - 2 ^ S k)%nat) by apply skipn_length.
+        assert (Hlt' : (length s' < 2 ^ S k)%nat) by lia.
+        destruct (place_entry_geom (S k) lo t0 (2 * m) Hlo0) as (A0 & B0 & C0).
+        destruct (IH lo' s' (2 * m + 1) Hlo' Hlt') as (A1 & B1 & C1). cbv zeta in *.
+        assert (Hsz : P2 (S k) <= N.of_nat (length s)) by lia.
+        split; [|split].
+        * rewrite map_app. apply NoDup_app_disj; [exact A0|exact A1|].
+          intros c Hc0 Hc1. apply in_map_iff in Hc0 as (x & Ex & Hx).
+          apply in_map_iff in Hc1 as (y & Ey & Hy).
+          destruct (B0 x Hx) as (_ & _ & X & _). destruct (B1 y Hy) as (Y & _).
+          apply (range_disjoint_coord x y); [|congruence]. unfold lo' in Y. lia.
+        * intros x Hx. apply in_app_or in Hx as [Hx|Hx].
+          -- destruct (B0 x Hx) as (_ & X1 & X2 & _). lia.
+          -- destruct (B1 x Hx) as (X1 & X2). unfold lo' in X1, X2. lia.
+        * intros x Hx. apply in_app_or in Hx as [Hx|Hx].
+          -- eapply tree_ok_incl; [|apply (entry_tree_ok (S k) lo t0 (2 * m) Hlo0 x Hx)].
+             intros y Hy. apply in_or_app. left. exact Hy.
+          -- eapply tree_ok_incl; [|apply (C1 x Hx)].
+             intros y Hy. apply in_or_app. right. exact Hy.
+      + apply (IH lo s (2 * m)); [lia|exact Hsmall].
+  Qed.
+
+  (** ** the layout of a state *)
+  Theorem layout_geom (s : slots H) :
+    NoDup (map coord (layout HO s)) /\
+    (forall x, In x (layout HO s) -> nhi x <= num_leaves s) /\
+    (forall x, In x (layout HO s) -> tree_ok (layout HO s) x).
+  Proof.
+    unfold layout, forest.
+    destruct (trees_geom (Nat.log2 (length s)) 0 s 0 eq_refl (length_lt_log2 H s)) as (A & B & C).
+    cbv zeta in *. split; [exact A|]. split; [|exact C].
+    intros x Hx. destruct (B x Hx) as (_ & B2). unfold num_leaves. lia.
+  Qed.
+
+  Theorem layout_coord_inj (s : slots H) x y :
+    In x (layout HO s) -> In y (layout HO s) -> coord x = coord y -> x = y.
+  Proof. apply NoDup_map_eq, layout_geom. Qed.
+End LayoutGeom.
+
+Arguments P2 r : simpl never.
+Arguments coord {H} x.
+Arguments nlo {H} x.
+Arguments nhi {H} x.
+Arguments tree_ok {H} L x.
+
+(** * Part 6: positions identify nodes and proof coordinates in the layout of a state *)
+Section LayoutInj.
+  Variable H : Type.
+  Variable HO : ops H.
+  Notation node := (node H).
+  Local Open Scope N_scope.
+
+  Lemma pos_gpos rows r o : pos rows r o = UtilsGeom.gpos (N.of_nat rows) (N.of_nat r) o.
+  Proof. reflexivity. Qed.
+
+  (** a coordinate of the [rows]-row geometry *)
+  Definition in_bounds (rows : nat) (c : nat * N) : Prop :=
+    (fst c <= rows)%nat /\ snd c < P2 (rows - fst c).
+
+  Theorem pos_inj_bounded rows c d :
+    in_bounds rows c -> in_bounds rows d ->
+    pos rows (fst c) (snd c) = pos rows (fst d) (snd d) -> c = d.
+  Proof.
+    destruct c as [r o], d as [r' o']. unfold in_bounds. cbn [fst snd]. intros [A B] [C D] E.
+    rewrite !pos_gpos in E. unfold P2 in B, D. rewrite Nat2N.inj_sub in B, D.
+    destruct (UtilsGeom2.gpos_inj (N.of_nat rows) (N.of_nat r) o (N.of_nat r') o') as [E1 E2];
+      [lia|exact B|lia|exact D|exact E|].
+    f_equal; lia.
+  Qed.
+
+  Lemma leaves_le_rows n : n <= P2 (rows_of n).
+  Proof.
+    unfold rows_of, P2. rewrite N2Nat.id. destruct (N.eqb_spec n 0) as [->|Hn].
+    - cbn. lia.
+    - pose proof (N.size_gt (n - 1)). lia.
+  Qed.
+
+  Lemma hi_bound rows r o : (o + 1) * P2 r <= P2 rows -> in_bounds rows (r, o).
+  Proof.
+    intros Hb. unfold in_bounds. cbn [fst snd].
+    assert (Hge : P2 r <= (o + 1) * P2 r) by (pose proof (P2_pos r); nia).
+    assert (Hr : (r <= rows)%nat).
+    { destruct (Nat.le_gt_cases r rows) as [Hle|Hgt]; [exact Hle|].
+      pose proof (P2_lt rows r Hgt). lia. }
+    split; [exact Hr|].
+    replace rows with ((rows - r) + r)%nat in Hb by lia. rewrite P2_add in Hb.
+    apply N.mul_le_mono_pos_r in Hb; [lia|apply P2_pos].
+  Qed.
+
+  Theorem layout_in_bounds (s : slots H) x :
+    In x (layout HO s) -> in_bounds (rows_of (num_leaves s)) (coord x).
+  Proof.
+    intros Hx. destruct (layout_geom H HO s) as (_ & B & _).
+    apply hi_bound. pose proof (B x Hx) as Hh. unfold nhi in Hh.
+    pose proof (leaves_le_rows (num_leaves s)). lia.
+  Qed.
+
+  (** positions identify the nodes of a layout *)
+  Theorem layout_npos_inj (s : slots H) x y :
+    In x (layout HO s) -> In y (layout HO s) ->
+    npos (rows_of (num_leaves s)) x = npos (rows_of (num_leaves s)) y -> x = y.
+  Proof.
+    intros Hx Hy E. apply (layout_coord_inj H HO s x y Hx Hy).
+    apply (pos_inj_bounded (rows_of (num_leaves s)) (coord x) (coord y));
+      [apply layout_in_bounds, Hx|apply layout_in_bounds, Hy|exact E].
+  Qed.
+
+  Lemma path_up_In fuel (lay : list node) : forall r o tr d, (r <= tr)%nat ->
+    In d (path_up fuel lay r o tr) ->
+    exists j, fst d = (r + j)%nat /\ (r + j <= tr)%nat /\ snd d = o / P2 j.
+  Proof.
+    induction fuel as [|f IH]; intros r o tr d Hr Hd.
+    - destruct Hd as [<-|[]]. exists 0%nat. cbn [fst snd]. rewrite P2_0, N.div_1_r. split; [lia|]. split; [lia|reflexivity].
+    - cbn [path_up] in Hd. destruct Hd as [<-|Hd].
+      + exists 0%nat. cbn [fst snd]. rewrite P2_0, N.div_1_r. split; [lia|]. split; [lia|reflexivity].
+      + destruct (Nat.ltb_spec r tr) as [Hlt|_]; [|destruct Hd].
+        destruct (IH (S r) (o / 2) tr d Hlt Hd) as (j & A & B & C).
+        exists (S j). split; [lia|]. split; [lia|].
+        rewrite C, P2_S, N.div_div; [reflexivity|lia|apply P2_nz].
+  Qed.
+
+  Lemma find_coord_In (lay : list node) y : In y lay ->
+    exists z, find_coord lay (nrow y) (noff y) = Some z /\ In z lay /\ coord z = coord y.
+  Proof.
+    induction lay as [|a lay IH]; intros Hy; [destruct Hy|]. cbn [find_coord].
+    destruct (Nat.eqb_spec (nrow a) (nrow y)) as [Er|Er];
+      [destruct (N.eqb_spec (noff a) (noff y)) as [Eo|Eo]|]; cbn [andb].
+    - exists a. split; [reflexivity|]. split; [left; reflexivity|]. unfold coord. congruence.
+    - destruct Hy as [->|Hy]; [congruence|]. destruct (IH Hy) as (z & A & B & C).
+      exists z. split; [exact A|]. split; [right; exact B|exact C].
+    - destruct Hy as [->|Hy]; [congruence|]. destruct (IH Hy) as (z & A & B & C).
+      exists z. split; [exact A|]. split; [right; exact B|exact C].
+  Qed.
+
+  Lemma lxor1_lt_even o E : o < 2 * E -> N.lxor o 1 < 2 * E.
+  Proof.
+    intros Ho. rewrite UtilsGeom2.lxor_1. destruct (N.even o) eqn:Ev; [|lia].
+    apply N.even_spec in Ev as [q ->]. lia.
+  Qed.
+
+  (** the proof coordinates of targets taken from the layout are coordinates of the geometry *)
+  Theorem proof_coords_in_bounds (s : slots H) (ts : list node) :
+    (forall x, In x ts -> In x (layout HO s)) ->
+    forall c, In c (proof_coords (layout HO s) ts) -> in_bounds (rows_of (num_leaves s)) c.
+  Proof.
+    intros Hts c Hc. set (lay := layout HO s) in *. set (rows := rows_of (num_leaves s)).
+    apply proof_coords_In in Hc as (d & Hd & Hroot & _ & ->).
+    apply known_set_In in Hd as (x & Hx & Hd).
+    destruct (layout_geom H HO s) as (_ & Hhi & Hok). fold lay in Hhi, Hok.
+    destruct (Hok x (Hts x Hx)) as (m & A & B & C & y & Hy & Yr & Yo & Yroot).
+    destruct (path_up_In 64 lay _ _ _ d A Hd) as (j & Dr & Dk & Do).
+    set (k := ntree x) in *. set (r := nrow x) in *. set (o := noff x) in *.
+    (* the tree of x fits below the leaf count *)
+    pose proof (Hhi y Hy) as Yhi. unfold nhi in Yhi. rewrite Yr, Yo in Yhi.
+    pose proof (leaves_le_rows (num_leaves s)) as Hn. fold rows in Hn.
+    assert (Hkb : in_bounds rows (k, m)) by (apply hi_bound; lia).
+    destruct Hkb as [Hk _]. cbn [fst] in Hk.
+    (* the ancestor d lies inside the tree *)
+    set (a := (k - (r + j))%nat).
+    assert (Ek : P2 k = P2 a * P2 j * P2 r).
+    { replace k with (a + (j + r))%nat by (unfold a; lia). rewrite !P2_add. lia. }
+    unfold nlo, nhi in B, C. fold r o in B, C. rewrite Ek in B, C.
+    pose proof (P2_pos r) as Pr. pose proof (P2_pos j) as Pj. pose proof (P2_pos a) as Pa.
+    assert (B' : m * P2 a * P2 j <= o).
+    { apply (N.mul_le_mono_pos_r _ _ (P2 r) Pr). lia. }
+    assert (C' : o + 1 <= (m + 1) * P2 a * P2 j).
+    { apply (N.mul_le_mono_pos_r _ _ (P2 r) Pr). lia. }
+    assert (Lo : m * P2 a <= snd d).
+    { rewrite Do. apply N.div_le_lower_bound; [apply P2_nz|lia]. }
+    assert (Hi : snd d < (m + 1) * P2 a).
+    { rewrite Do. apply N.div_lt_upper_bound; [apply P2_nz|lia]. }
+    destruct a as [|a'] eqn:Ea.
+    - (* d is the root of the tree: excluded *)
+      exfalso. rewrite P2_0 in Lo, Hi.
+      assert (Ed : d = coord y).
+      { destruct d as [dr dc]. unfold coord. cbn [fst snd] in *. f_equal; lia. }
+      unfold is_root_coord in Hroot. rewrite Ed in Hroot. unfold coord in Hroot. cbn [fst snd] in Hroot.
+      destruct (find_coord_In lay y Hy) as (z & Fz & Hz & Ez). rewrite Fz in Hroot.
+      rewrite (layout_coord_inj H HO s z y Hz Hy Ez) in Hroot. congruence.
+    - (* below the root: the sibling is in the geometry *)
+      unfold in_bounds, sib_coord. cbn [fst snd]. split; [lia|].
+      assert (Hw : (m + 1) * P2 (S a') <= P2 (rows - fst d)).
+      { apply (N.mul_le_mono_pos_r _ _ (P2 (fst d)) (P2_pos (fst d))).
+        rewrite <- P2_add. replace (rows - fst d + fst d)%nat with rows by lia.
+        rewrite Dr, P2_add. lia. }
+      rewrite P2_S in Hw, Hi.
+      assert (N.lxor (snd d) 1 < 2 * ((m + 1) * P2 a')); [apply lxor1_lt_even; lia|lia].
+  Qed.
+
+  Theorem proof_coords_pos_inj (s : slots H) (ts : list node) :
+    (forall x, In x ts -> In x (layout HO s)) ->
+    pos_inj_on (rows_of (num_leaves s)) (proof_coords (layout HO s) ts).
+  Proof.
+    intros Hts c d Hc Hd. apply pos_inj_bounded; apply (proof_coords_in_bounds s ts Hts); assumption.
+  Qed.
+
+  (** ** C14 for the layouts of actual states: no distinctness hypothesis left *)
+  Theorem canon_unique_state (s : slots H) (ts ts' : list node) :
+    Permutation ts ts' -> (forall x, In x ts -> In x (layout HO s)) ->
+    canon_proof_pos (rows_of (num_leaves s)) (layout HO s) ts =
+      canon_proof_pos (rows_of (num_leaves s)) (layout HO s) ts' /\
+    canon_proof_hashes HO (rows_of (num_leaves s)) (layout HO s) ts =
+      canon_proof_hashes HO (rows_of (num_leaves s)) (layout HO s) ts'.
+  Proof. intros P Hts. apply canon_unique; [exact P|apply proof_coords_pos_inj, Hts]. Qed.
+
+  Hypothesis HOK : ops_ok HO.
+
+  Theorem exp_cached_perm_state (s : slots H) (set set' : list H) :
+    Permutation set set' -> NoDup set ->
+    exp_cached HO (mk_ctx HO s) set = exp_cached HO (mk_ctx HO s) set'.
+  Proof.
+    intros P Hn. apply (exp_cached_perm H HO HOK); [exact P|exact Hn|].
+    cbn [clay crows mk_ctx]. intros x y Hx Hy _ _. apply layout_npos_inj; assumption.
+  Qed.
+
+  (** [prove]: the proof hashes do not depend on the request order (the targets come back in
+      request order) *)
+  Theorem prove_perm (s : slots H) (hs hs' : list H) t p :
+    Permutation hs hs' -> prove HO s hs = Some (t, p) ->
+    exists t', prove HO s hs' = Some (t', p) /\ Permutation t t'.
+  Proof.
+    intros P. unfold prove.
+    destruct (find_leaves HO (layout HO s) hs) as [ts|] eqn:E; [|discriminate].
+    intros [= <- <-].
+    destruct (find_leaves_perm H HO _ _ _ P ts E) as (ts' & E' & Pt). rewrite E'.
+    eexists. split; [|apply Permutation_map, Pt]. f_equal. f_equal.
+    symmetry. apply canon_unique_state; [exact Pt|].
+    intros x Hx. apply (find_leaves_In H HO _ _ _ E) in Hx as (h & _ & Hx).
+    apply (find_leaf_spec H HO HOK _ _ _ Hx).
+  Qed.
+End LayoutInj.
+
+(** * Examples in the free algebra: the statements are not vacuous *)
+
+(** two different slot lists that are observationally equivalent *)
+Example ex_equiv_distinct :
+  let s := [Some (Atom 1); None; None; None; Some (Atom 2)] in
+  let s' := [None; None; Some (Atom 1); None; Some (Atom 2)] in
+  s <> s' /\ equiv term_ops s s' /\
+  equiv term_ops (apply_block term_ops s [Atom 2] [Atom 3; Atom 4])
+                 (apply_block term_ops s' [Atom 2] [Atom 3; Atom 4]).
+Proof.
+  cbv zeta. split; [discriminate|].
+  assert (E : equiv term_ops [Some (Atom 1); None; None; None; Some (Atom 2)]
+                             [None; None; Some (Atom 1); None; Some (Atom 2)])
+    by (split; vm_compute; reflexivity).
+  split; [exact E|apply equiv_bisim, E].
+Qed.
+
+(** equivalence is finer than "same roots": same roots and leaf count, different trees *)
+Example ex_same_roots_not_equiv :
+  let s := [Some (Node (Atom 1) (Atom 2)); None] in
+  let s' := [Some (Atom 1); Some (Atom 2)] in
+  roots term_ops s = roots term_ops s' /\ length s = length s' /\ ~ equiv term_ops s s'.
+Proof.
+  cbv zeta. split; [vm_compute; reflexivity|]. split; [reflexivity|].
+  intros [_ E]. vm_compute in E. discriminate.
+Qed.
+
+(** A position names a slot only within the class: re-inserting a deleted leaf "at the leftmost
+    slot of the segment named by its pre-block position" is NOT sound on arbitrary slot lists.
+    [Atom 2] sits at (row 2, offset 1), i.e. slots 4..7, but the surviving [Atom 1] (slot 6,
+    position (row 2, offset 0)) lives in that range too. *)
+Example ex_leftmost_slot_unsound :
+  let s := [None; None; None; None; None; None; Some (Atom 1); Some (Atom 2)] in
+  let s0 := put_slot 4 (Atom 2) (kill term_ops [Atom 2] s) in
+  In (mkNode 2 1 (Atom 2) true false 3) (layout term_ops s) /\
+  In (mkNode 2 0 (Atom 1) true false 3) (layout term_ops s) /\
+  ~ equiv term_ops s0 s.
+Proof.
+  cbv zeta. split; [vm_compute; tauto|]. split; [vm_compute; tauto|].
+  intros [_ E]. vm_compute in E. discriminate.
+Qed.
+
+(** C09: a strict inclusion *)
+Example ex_needed_allowed :
+  needed_pos term_ops ex_s [Atom 1; Atom 7] = Some [0; 1; 6; 9]%N /\
+  allowed_pos term_ops ex_s [Atom 1; Atom 7] = Some [0; 1; 6; 8; 9; 10; 12]%N.
+Proof. split; vm_compute; reflexivity. Qed.
+
+(** C14: the cached proof of a permuted set; [prove] keeps the request order of the targets *)
+Example ex_cached_perm :
+  exp_cached term_ops (mk_ctx term_ops ex_s) [Atom 7; Atom 1; Atom 3] =
+    Some ([Atom 1; Atom 3; Atom 7], [0; 2; 6]%N, [Atom 2; Atom 4]) /\
+  exp_cached term_ops (mk_ctx term_ops ex_s) [Atom 3; Atom 7; Atom 1] =
+    Some ([Atom 1; Atom 3; Atom 7], [0; 2; 6]%N, [Atom 2; Atom 4]) /\
+  prove term_ops ex_s [Atom 7; Atom 1; Atom 3] = Some ([6; 0; 2]%N, [Atom 2; Atom 4]) /\
+  prove term_ops ex_s [Atom 3; Atom 7; Atom 1] = Some ([2; 6; 0]%N, [Atom 2; Atom 4]).
+Proof. repeat split; vm_compute; reflexivity. Qed.
+
+(** * Part 7 (C06): the class-level inverse of a deletion.  The compressed forest before a deletion
+    is a function of the compressed forest after it and the (coordinate, hash) pairs of the deleted
+    leaves - what [Undo] receives as positions and hashes. *)
+Section Graft.
+  Variable H : Type.
+  Variable HO : ops H.
+  Notation hash2 := (op_hash2 HO).
+  Notation entry := (nat * N * option (ctree H))%type.
+  Notation dcoord := (nat * N * H)%type.
+  Local Open Scope N_scope.
+
+  (** a compressed tree that fits below row [k], with consistent hashes *)
+  Fixpoint wf (t : ctree H) (k : nat) : Prop :=
+    match t with
+    | CLeaf _ => True
+    | CNode h l r =>
+        match k with
+        | O => False
+        | S k' => h = hash2 (chash l) (chash r) /\ wf l k' /\ wf r k'
+        end
+    end.
+
+  Lemma wf_S t : forall k, wf t k -> wf t (S k).
+  Proof.
+    induction t as [h|h l IHl r IHr]; intros k Hw; [exact I|].
+    destruct k as [|k']; [destruct Hw|]. destruct Hw as (A & B & C).
+    cbn [wf]. split; [exact A|]. split; [apply IHl, B|apply IHr, C].
+  Qed.
+
+  Lemma compress_wf k : forall seg t, compress HO k seg = Some t -> wf t k.
+  Proof.
+    induction k as [|k IH]; intros seg t Hc.
+    - cbn [compress] in Hc. destruct seg as [|[h|] seg]; try discriminate. injection Hc as <-. exact I.
+    - rewrite compress_S in Hc.
+      destruct (compress HO k (firstn (2 ^ k) seg)) as [c1|] eqn:E1;
+        destruct (compress HO k (skipn (2 ^ k) seg)) as [c2|] eqn:E2; cbn [join] in Hc;
+        try discriminate; injection Hc as <-.
+      + cbn [wf]. split; [reflexivity|]. split; [exact (IH _ _ E1)|exact (IH _ _ E2)].
+      + apply wf_S. exact (IH _ _ E1).
+      + apply wf_S. exact (IH _ _ E2).
+  Qed.
+
+  (** coordinates and hashes of the leaves a deletion removes from a placed tree *)
+  Fixpoint del_coords (dels : list H) (t : ctree H) (r : nat) (o : N) : list dcoord :=
+    match t with
+    | CLeaf h => if memH HO h dels then [(r, o, h)] else []
+    | CNode _ l rr =>
+        match r with
+        | S r' => del_coords dels l r' (2 * o) ++ del_coords dels rr r' (2 * o + 1)
+        | O => []
+        end
+    end.
+
+  Definition node_dcoord (x : node H) : dcoord := (nrow x, noff x, nhash x).
+  Definition is_del (dels : list H) (x : node H) : bool := nleaf x && memH HO (nhash x) dels.
+
+  (** they are the deleted leaf nodes of the layout *)
+  Lemma del_coords_layout dels t : forall r o isroot tr,
+    del_coords dels t r o = map node_dcoord (filter (is_del dels) (place_tree t r o isroot tr)).
+  Proof.
+    induction t as [h|h l IHl rr IHr]; intros r o isroot tr.
+    - cbn [del_coords place_tree filter]. unfold is_del. cbn [nleaf nhash andb].
+      destruct (memH HO h dels); reflexivity.
+    - cbn [del_coords place_tree filter]. unfold is_del at 1. cbn [nleaf andb].
+      destruct r as [|r']; [reflexivity|].
+      rewrite filter_app, map_app, <- IHl, <- IHr. reflexivity.
+  Qed.
+
+  Definition drow (e : dcoord) : nat := fst (fst e).
+  Definition doff (e : dcoord) : N := snd (fst e).
+  Definition dlo (e : dcoord) : N := doff e * P2 (drow e).
+  Definition dhi (e : dcoord) : N := (doff e + 1) * P2 (drow e).
+
+  (** [e] lies in the subtree of the coordinate (R, O) *)
+  Definition under (R : nat) (O : N) (e : dcoord) : bool :=
+    (drow e <=? R)%nat && (O * P2 R <=? dlo e) && (dhi e <=? (O + 1) * P2 R).
+
+  Definition weight (D : list dcoord) : N := fold_right (fun e acc => P2 (drow e) + acc) 0 D.
+  Definition full (D : list dcoord) (R : nat) : bool := weight D =? P2 R.
+
+  Lemma weight_app a b : weight (a ++ b) = weight a + weight b.
+  Proof. induction a as [|e a IH]; cbn [app weight fold_right]; [reflexivity|]. fold (weight (a ++ b)). fold (weight a). lia. Qed.
+
+  Lemma dlo_lt_dhi e : dlo e < dhi e.
+  Proof. unfold dlo, dhi. pose proof (P2_pos (drow e)). lia. Qed.
+
+  Lemma del_coords_under dels t : forall r o e,
+    wf t r -> In e (del_coords dels t r o) -> under r o e = true.
+  Proof.
+    induction t as [h|h l IHl rr IHr]; intros r o e Hw He.
+    - cbn [del_coords] in He. destruct (memH HO h dels); [|destruct He]. destruct He as [<-|[]].
+      unfold under, dlo, dhi, drow, doff. cbn [fst snd]. lia.
+    - destruct r as [|r']; [destruct Hw|]. destruct Hw as (_ & Wl & Wr). cbn [del_coords] in He.
+      apply in_app_or in He as [He|He].
+      + specialize (IHl r' (2 * o) e Wl He). unfold under in *. rewrite P2_S. lia.
+      + specialize (IHr r' (2 * o + 1) e Wr He). unfold under in *. rewrite P2_S. lia.
+  Qed.
+
+  Lemma under_children_excl R O e : under R (2 * O) e = true -> under R (2 * O + 1) e = false.
+  Proof. pose proof (dlo_lt_dhi e). unfold under. lia. Qed.
+
+  Lemma filter_all {A} (f : A -> bool) l : (forall x, In x l -> f x = true) -> filter f l = l.
+  Proof.
+    induction l as [|a l IH]; intros Hf; [reflexivity|]. cbn [filter].
+    rewrite (Hf a (or_introl eq_refl)), IH; [reflexivity|]. intros x Hx. apply Hf. right. exact Hx.
+  Qed.
+  Lemma filter_none {A} (f : A -> bool) l : (forall x, In x l -> f x = false) -> filter f l = [].
+  Proof.
+    induction l as [|a l IH]; intros Hf; [reflexivity|]. cbn [filter].
+    rewrite (Hf a (or_introl eq_refl)), IH; [reflexivity|]. intros x Hx. apply Hf. right. exact Hx.
+  Qed.
+
+  (** no deleted leaf: pruning is the identity *)
+  Lemma prune_no_del dels t : forall r o, wf t r -> del_coords dels t r o = [] -> prune HO dels t = Some t.
+  Proof.
+    induction t as [h|h l IHl rr IHr]; intros r o Hw Hd.
+    - cbn [del_coords] in Hd. cbn [prune]. destruct (memH HO h dels); [discriminate|reflexivity].
+    - destruct r as [|r']; [destruct Hw|]. destruct Hw as (Eh & Wl & Wr). cbn [del_coords] in Hd.
+      apply app_eq_nil in Hd as [Dl Dr]. cbn [prune].
+      rewrite (IHl _ _ Wl Dl), (IHr _ _ Wr Dr). cbn [join]. rewrite <- Eh. reflexivity.
+  Qed.
+
+  (** the deleted leaves fill the whole subtree exactly when nothing survives *)
+  Lemma weight_del dels t : forall r o, wf t r ->
+    match prune HO dels t with
+    | None => weight (del_coords dels t r o) = P2 r
+    | Some _ => weight (del_coords dels t r o) < P2 r
+    end.
+  Proof.
+    induction t as [h|h l IHl rr IHr]; intros r o Hw.
+    - cbn [prune del_coords]. pose proof (P2_pos r).
+      destruct (memH HO h dels); cbn [weight fold_right drow fst]; lia.
+    - destruct r as [|r']; [destruct Hw|]. destruct Hw as (_ & Wl & Wr).
+      cbn [prune del_coords]. rewrite weight_app, P2_S.
+      specialize (IHl r' (2 * o) Wl). specialize (IHr r' (2 * o + 1) Wr).
+      destruct (prune HO dels l) as [a|], (prune HO dels rr) as [b|]; cbn [join]; lia.
+  Qed.
+
+  Lemma full_del dels t r o : wf t r ->
+    full (del_coords dels t r o) r = match prune HO dels t with None => true | Some _ => false end.
+  Proof.
+    intros Hw. pose proof (weight_del dels t r o Hw) as Hd. unfold full.
+    destruct (prune HO dels t); lia.
+  Qed.
+
+  (** put the deleted leaves [D] (all below (k, o)) back into the pruned tree [t'] *)
+  Fixpoint graft (k : nat) (o : N) (t' : option (ctree H)) (D : list dcoord) : option (ctree H) :=
+    match D with
+    | [] => t'
+    | e0 :: _ =>
+        match k with
+        | O => Some (CLeaf (snd e0))
+        | S k' =>
+            if Nat.eqb (drow e0) (S k') then Some (CLeaf (snd e0))
+            else
+              let DL := filter (under k' (2 * o)) D in
+              let DR := filter (under k' (2 * o + 1)) D in
+              let sp := match full DL k', full DR k' with
+                        | true, true => (None, None)
+                        | true, false => (None, t')
+                        | false, true => (t', None)
+                        | false, false =>
+                            match t' with
+                            | Some (CNode _ a b) => (Some a, Some b)
+                            | _ => (None, None)
+                            end
+                        end in
+              join HO (graft k' (2 * o) (fst sp) DL) (graft k' (2 * o + 1) (snd sp) DR)
+        end
+    end.
+
+  Lemma graft_nil k o t' : graft k o t' [] = t'.
+  Proof. destruct k; reflexivity. Qed.
+
+  Theorem graft_prune dels t : forall k o, wf t k ->
+    graft k o (prune HO dels t) (del_coords dels t k o) = Some t.
+  Proof.
+    induction t as [h|h l IHl rr IHr]; intros k o Hw.
+    - cbn [prune del_coords]. destruct (memH HO h dels); [|apply graft_nil].
+      destruct k as [|k']; cbn [graft snd drow fst]; [reflexivity|]. rewrite Nat.eqb_refl. reflexivity.
+    - destruct k as [|k']; [destruct Hw|]. pose proof Hw as (Eh & Wl & Wr).
+      destruct (del_coords dels (CNode h l rr) (S k') o) as [|e0 D'] eqn:ED.
+      + rewrite graft_nil. apply (prune_no_del dels _ (S k') o Hw ED).
+      + rewrite <- ED. cbn [graft]. rewrite ED at 1.
+        assert (He0 : In e0 (del_coords dels (CNode h l rr) (S k') o)) by (rewrite ED; left; reflexivity).
+        cbn [del_coords] in He0 |- *.
+        set (DL0 := del_coords dels l k' (2 * o)) in *. set (DR0 := del_coords dels rr k' (2 * o + 1)) in *.
+        assert (UL : forall e, In e DL0 -> under k' (2 * o) e = true) by (intros e; apply del_coords_under, Wl).
+        assert (UR : forall e, In e DR0 -> under k' (2 * o + 1) e = true) by (intros e; apply del_coords_under, Wr).
+        assert (Hrow : Nat.eqb (drow e0) (S k') = false).
+        { apply Nat.eqb_neq. apply in_app_or in He0 as [He0|He0];
+            [specialize (UL e0 He0)|specialize (UR e0 He0)]; unfold under in *; lia. }
+        rewrite Hrow.
+        assert (FL : filter (under k' (2 * o)) (DL0 ++ DR0) = DL0).
+        { rewrite filter_app, (filter_all _ DL0 UL), (filter_none _ DR0), app_nil_r; [reflexivity|].
+          intros e He. specialize (UR e He). pose proof (dlo_lt_dhi e). unfold under in *. lia. }
+        assert (FR : filter (under k' (2 * o + 1)) (DL0 ++ DR0) = DR0).
+        { rewrite filter_app, (filter_all _ DR0 UR), (filter_none _ DL0); [reflexivity|].
+          intros e He. apply under_children_excl, UL, He. }
+        rewrite FL, FR.
+        assert (EL : full DL0 k' = match prune HO dels l with None => true | Some _ => false end)
+          by apply full_del, Wl.
+        assert (ER : full DR0 k' = match prune HO dels rr with None => true | Some _ => false end)
+          by apply full_del, Wr.
+        rewrite EL, ER.
+        specialize (IHl k' (2 * o) Wl). specialize (IHr k' (2 * o + 1) Wr). fold DL0 in IHl. fold DR0 in IHr.
+        cbn [prune].
+        destruct (prune HO dels l) as [a|], (prune HO dels rr) as [b|]; cbn [join fst snd];
+          rewrite IHl, IHr; cbn [join]; rewrite <- Eh; reflexivity.
+  Qed.
+
+  (** ** the whole forest *)
+  Definition entry_dels (dels : list H) (e : entry) : list dcoord :=
+    match snd e with
+    | None => []
+    | Some c => del_coords dels c (fst (fst e)) (snd (fst e) / P2 (fst (fst e)))
+    end.
+  Definition forest_dels (dels : list H) (f : list entry) : list dcoord :=
+    flat_map (entry_dels dels) f.
+  Definition graft_entry (D : list dcoord) (e : entry) : entry :=
+    let k := fst (fst e) in
+    let o := snd (fst e) / P2 k in
+    (k, snd (fst e), graft k o (snd e) (filter (under k o) D)).
+
+  (** what [Undo] is told about a deletion: coordinates (positions) and hashes of the deleted leaves *)
+  Definition deleted_leaves (dels : list H) (s : slots H) : list dcoord :=
+    map node_dcoord (filter (is_del dels) (layout HO s)).
+
+  Lemma forest_dels_layout dels (f : list entry) :
+    forest_dels dels f = map node_dcoord (filter (is_del dels) (flat_map (place_entry HO) f)).
+  Proof.
+    induction f as [|[[k lo] t] f IH]; [reflexivity|].
+    cbn [forest_dels flat_map]. fold (forest_dels dels f). rewrite filter_app, map_app, <- IH. f_equal.
+    unfold entry_dels, place_entry. cbn [fst snd]. fold (P2 k). destruct t as [c|].
+    - apply del_coords_layout.
+    - reflexivity.
+  Qed.
+
+  Theorem deleted_leaves_forest dels s : deleted_leaves dels s = forest_dels dels (forest HO s).
+  Proof. unfold deleted_leaves, layout. symmetry. apply forest_dels_layout. Qed.
+
+  Definition outside (lo hi : N) (e : dcoord) : Prop := dhi e <= lo \/ hi <= dlo e.
+
+  Lemma graft_entry_prune dels k lo t m Dpre Dpost :
+    lo = m * P2 k -> (forall c, t = Some c -> wf c k) ->
+    (forall e, In e (Dpre ++ Dpost) -> outside lo (lo + P2 k) e) ->
+    graft_entry (Dpre ++ entry_dels dels (k, lo, t) ++ Dpost) (prune_entry HO dels (k, lo, t)) = (k, lo, t).
+  Proof.
+    intros Hlo Hw Hout. unfold graft_entry, prune_entry. cbn [fst snd].
+    assert (Hm : lo / P2 k = m) by (rewrite Hlo; apply N.div_mul, P2_nz). rewrite Hm.
+    assert (Hno : forall e, outside lo (lo + P2 k) e -> under k m e = false).
+    { intros e He. pose proof (dlo_lt_dhi e). unfold outside in He. unfold under. lia. }
+    rewrite !filter_app.
+    rewrite (filter_none _ Dpre) by (intros e He; apply Hno, Hout, in_or_app; left; exact He).
+    rewrite (filter_none _ Dpost) by (intros e He; apply Hno, Hout, in_or_app; right; exact He).
+    rewrite app_nil_r. cbn [app]. unfold entry_dels. cbn [fst snd]. rewrite Hm.
+    destruct t as [c|]; cbn [oprune filter].
+    - rewrite filter_all by (intros e He; exact (del_coords_under dels c k m e (Hw c eq_refl) He)).
+      rewrite (graft_prune dels c k m (Hw c eq_refl)). reflexivity.
+    - rewrite graft_nil. reflexivity.
+  Qed.
+
+  Lemma forest_dels_range dels k lo (s : slots H) m :
+    lo = m * P2 (S k) -> (length s < 2 ^ S k)%nat ->
+    forall e, In e (forest_dels dels (trees HO k lo s)) ->
+              lo <= dlo e /\ dhi e <= lo + N.of_nat (length s).
+  Proof.
+    intros Hlo Hlt e He. rewrite forest_dels_layout in He.
+    apply in_map_iff in He as (x & <- & Hx). apply filter_In in Hx as [Hx _].
+    destruct (trees_geom H HO k lo s m Hlo Hlt) as (_ & B & _). exact (B x Hx).
+  Qed.
+
+  Lemma trees_graft dels k : forall lo (s : slots H) m Dpre Dpost,
+    lo = m * P2 (S k) -> (length s < 2 ^ S k)%nat ->
+    (forall e, In e (Dpre ++ Dpost) -> outside lo (lo + N.of_nat (length s)) e) ->
+    map (graft_entry (Dpre ++ forest_dels dels (trees HO k lo s) ++ Dpost))
+        (map (prune_entry HO dels) (trees HO k lo s)) = trees HO k lo s.
+  Proof.
+    induction k as [|k IH]; intros lo s m Dpre Dpost Hlo Hlt Hout.
+    - rewrite trees_0. change (2 ^ 1)%nat with 2%nat in Hlt.
+      destruct (Nat.leb_spec 1 (length s)) as [Hge|Hsmall]; [|reflexivity].
+      cbn [map forest_dels flat_map]. rewrite app_nil_r. f_equal.
+      apply (graft_entry_prune dels 0 lo _ lo).
+      + rewrite P2_0. lia.
+      + intros c Hc. exact (compress_wf _ _ _ Hc).
+      + intros e He. specialize (Hout e He). unfold outside in *. rewrite P2_0. lia.
+    - rewrite trees_S. rewrite P2_S in Hlo.
+      assert (Hpow : (2 ^ S (S k) = 2 * 2 ^ S k)%nat) by apply Nat.pow_succ_r'.
+      destruct (Nat.leb_spec (2 ^ S k) (length s)) as [Hge|Hsmall].
+      + set (t0 := compress HO (S k) (firstn (2 ^ S k) s)).
+        set (lo' := lo + N.of_nat (2 ^ S k)). set (s' := skipn (2 ^ S k) s).
+        pose proof (P2_nat (S k)) as HP.
+        assert (Hlo0 : lo = (2 * m) * P2 (S k)) by lia.
+        assert (Hlo' : lo' = (2 * m + 1) * P2 (S k)) by (unfold lo'; lia).
+        assert (Hl' : length s' = (length s - 2 ^ S k)%nat) by apply skipn_length.
+        assert (Hlt' : (length s' < 2 ^ S k)%nat) by lia.
+        cbn [map forest_dels flat_map]. fold (forest_dels dels (trees HO k lo' s')).
+        set (D0 := entry_dels dels (S k, lo, t0)). set (D1 := forest_dels dels (trees HO k lo' s')).
+        assert (R1 : forall e, In e D1 -> lo' <= dlo e /\ dhi e <= lo' + N.of_nat (length s'))
+          by (apply (forest_dels_range dels k lo' s' (2 * m + 1) Hlo' Hlt')).
+        assert (R0 : forall e, In e D0 -> lo <= dlo e /\ dhi e <= lo + P2 (S k)).
+        { intros e He. unfold D0 in He. rewrite <- (app_nil_r (entry_dels _ _)) in He.
+          change (entry_dels dels (S k, lo, t0) ++ []) with (forest_dels dels [(S k, lo, t0)]) in He.
+          rewrite forest_dels_layout in He. apply in_map_iff in He as (x & <- & Hx).
+          apply filter_In in Hx as [Hx _]. cbn [flat_map] in Hx. rewrite app_nil_r in Hx.
+          destruct (place_entry_geom H HO (S k) lo t0 (2 * m) Hlo0) as (_ & B & _).
+          destruct (B x Hx) as (_ & B1 & B2 & _). split; [exact B1|exact B2]. }
+        f_equal.
+        * rewrite <- app_assoc.
+          apply (graft_entry_prune dels (S k) lo t0 (2 * m) Dpre (D1 ++ Dpost) Hlo0).
+          -- intros c Hc. exact (compress_wf _ _ _ Hc).
+          -- intros e He. apply in_app_or in He as [He|He];
+               [|apply in_app_or in He as [He|He]].
+             ++ specialize (Hout e (in_or_app _ _ _ (or_introl He))). unfold outside in *. lia.
+             ++ destruct (R1 e He). unfold outside, lo' in *. lia.
+             ++ specialize (Hout e (in_or_app _ _ _ (or_intror He))). unfold outside in *. lia.
+        * rewrite <- app_assoc, app_assoc.
+          apply (IH lo' s' (2 * m + 1) (Dpre ++ D0) Dpost Hlo' Hlt').
+          intros e He. rewrite <- app_assoc in He. apply in_app_or in He as [He|He];
+               [|apply in_app_or in He as [He|He]].
+          -- specialize (Hout e (in_or_app _ _ _ (or_introl He))). unfold outside, lo' in *. lia.
+          -- destruct (R0 e He). unfold outside, lo' in *. lia.
+          -- specialize (Hout e (in_or_app _ _ _ (or_intror He))). unfold outside, lo' in *. lia.
+      + apply (IH lo s (2 * m)); [lia|exact Hsmall|exact Hout].
+  Qed.
+
+  (** the forest before a deletion, from the forest after it and the deleted (coordinate, hash)s *)
+  Theorem forest_graft dels (s : slots H) :
+    map (graft_entry (deleted_leaves dels s)) (forest HO (kill HO dels s)) = forest HO s.
+  Proof.
+    rewrite forest_kill, deleted_leaves_forest. unfold forest.
+    pose proof (trees_graft dels (Nat.log2 (length s)) 0 s 0 [] [] eq_refl (length_lt_log2 H s)) as G.
+    cbn [app] in G. rewrite app_nil_r in G. apply G. intros e [].
+  Qed.
+
+  (** deletion is injective on classes, given what [Undo] is told *)
+  Theorem kill_class_injective dels (s1 s2 : slots H) :
+    equiv HO (kill HO dels s1) (kill HO dels s2) ->
+    deleted_leaves dels s1 = deleted_leaves dels s2 -> equiv HO s1 s2.
+  Proof.
+    intros [A B] ED. split; [rewrite !length_kill in A; exact A|].
+    rewrite <- (forest_graft dels s1), <- (forest_graft dels s2), B, ED. reflexivity.
+  Qed.
+End Graft.
+
+Arguments wf {H} HO t k.
+Arguments del_coords {H} HO dels t r o.
+Arguments node_dcoord {H} x.
+Arguments is_del {H} HO dels x.
+Arguments drow {H} e.
+Arguments doff {H} e.
+Arguments dlo {H} e.
+Arguments dhi {H} e.
+Arguments under {H} R O e.
+Arguments weight {H} D.
+Arguments full {H} D R.
+Arguments graft {H} HO k o t' D.
+Arguments entry_dels {H} HO dels e.
+Arguments forest_dels {H} HO dels f.
+Arguments graft_entry {H} HO D e.
+Arguments deleted_leaves {H} HO dels s.
+Arguments outside {H} lo hi e.
+
+(** * Part 8 (C06): the class-level inverse of the additions, and of a whole block *)
+Section Uncarry.
+  Variable H : Type.
+  Variable HO : ops H.
+  Notation entry := (nat * N * option (ctree H))%type.
+  Notation sentry := (nat * option (ctree H))%type.
+
+  Definition strip (e : entry) : sentry := (fst (fst e), snd e).
+  Definition is_none {A} (o : option A) : bool := match o with None => true | Some _ => false end.
+
+  (** [carry] without the slot offsets *)
+  Fixpoint scarry (rts : list sentry) (r : nat) (t : option (ctree H)) : list sentry * sentry :=
+    match rts with
+    | [] => ([], (r, t))
+    | (r', t') :: rest => if Nat.eqb r' r then scarry rest (S r) (join HO t' t) else (rts, (r, t))
+    end.
+
+  Lemma scarry_carry (F : list entry) : forall r lo t,
+    scarry (map strip F) r t =
+    (map strip (fst (carry H HO F r lo t)), strip (snd (carry H HO F r lo t))).
+  Proof.
+    induction F as [|[[r' lo'] t'] F IH]; intros r lo t; [reflexivity|].
+    cbn [map carry]. unfold strip at 1. cbn [fst snd scarry].
+    destruct (Nat.eqb r' r); [apply IH|reflexivity].
+  Qed.
+
+  (** the consumed prefix *)
+  Lemma scarry_spec (rf : list sentry) : forall i X,
+    exists cons rest, rf = cons ++ rest /\
+      scarry rf i X = (rest, ((i + length cons)%nat, fold_left (fun Y e => join HO (snd e) Y) cons X)) /\
+      map fst cons = seq i (length cons).
+  Proof.
+    induction rf as [|[r' t'] rf IH]; intros i X.
+    - exists [], []. cbn. rewrite Nat.add_0_r. auto.
+    - cbn [scarry]. destruct (Nat.eqb_spec r' i) as [->|Hne].
+      + destruct (IH (S i) (join HO t' X)) as (cons & rest & E & C & R).
+        exists ((i, t') :: cons), rest. split; [rewrite E; reflexivity|]. split.
+        * rewrite C. cbn [length fold_left snd]. f_equal. f_equal. lia.
+        * cbn [map length seq fst]. rewrite R. reflexivity.
+      + exists [], ((r', t') :: rf). cbn. rewrite Nat.add_0_r. auto.
+  Qed.
+
+  (** peel the consumed trees off the carried tree; [rfl]: emptiness of the consumed trees, highest
+      row first *)
+  Fixpoint peel (rfl : list bool) (i : nat) (X : option (ctree H)) : list sentry :=
+    match i, rfl with
+    | S i', f :: rfl' =>
+        let sp := if f then (None, X)
+                  else match X with
+                       | Some (CNode _ c x) => (Some c, Some x)
+                       | _ => (None, X)
+                       end in
+        peel rfl' i' (snd sp) ++ [(i', fst sp)]
+    | _, _ => []
+    end.
+
+  Lemma fold_join_some (cons : list sentry) : forall x,
+    exists y, fold_left (fun Y e => join HO (snd e) Y) cons (Some x) = Some y.
+  Proof.
+    induction cons as [|[r t] cons IH]; intros x; [exists x; reflexivity|].
+    cbn [fold_left snd]. destruct t as [c|]; cbn [join]; apply IH.
+  Qed.
+
+  Lemma peel_fold (cons : list sentry) : forall x,
+    map fst cons = seq 0 (length cons) ->
+    peel (rev (map (fun e => is_none (snd e)) cons)) (length cons)
+         (fold_left (fun Y e => join HO (snd e) Y) cons (Some x)) = cons.
+  Proof.
+    induction cons as [|[r t] cons IH] using rev_ind; intros x Hrows; [reflexivity|].
+    rewrite map_app, rev_app_distr, app_length, fold_left_app. cbn [map rev app length fold_left snd].
+    rewrite Nat.add_1_r. rewrite map_app, app_length, Nat.add_1_r, seq_S in Hrows. cbn [map fst] in Hrows.
+    apply app_inj_tail in Hrows as [Hrows Hr]. cbn [Nat.add] in Hr. subst r.
+    destruct (fold_join_some cons x) as [y Ey]. rewrite Ey. cbn [peel].
+    destruct t as [c|]; cbn [is_none join fst snd].
+    - rewrite <- Ey, IH by exact Hrows. reflexivity.
+    - rewrite <- Ey, IH by exact Hrows. reflexivity.
+  Qed.
+
+  (** one addition on the class, and its inverse *)
+  Definition sadd (rf : list sentry) (x : option H) : list sentry :=
+    let r := scarry rf 0 (compress HO 0 [x]) in snd r :: fst r.
+  Definition flags (rf : list sentry) : list bool := map (fun e => is_none (snd e)) rf.
+  Definition unsadd (fl : list bool) (rf' : list sentry) : list sentry :=
+    match rf' with
+    | [] => []
+    | (j, T) :: rest => peel (rev (firstn j fl)) j T ++ rest
+    end.
+
+  Theorem unsadd_sadd rf a : unsadd (flags rf) (sadd rf (Some a)) = rf.
+  Proof.
+    unfold sadd. cbn [compress].
+    destruct (scarry_spec rf 0 (Some (CLeaf a))) as (cons & rest & E & C & R).
+    rewrite C. cbn [fst snd unsadd Nat.add]. subst rf. unfold flags. rewrite map_app.
+    rewrite firstn_app, map_length, Nat.sub_diag, firstn_all2 by (rewrite map_length; lia).
+    cbn [firstn]. rewrite app_nil_r, (peel_fold cons (CLeaf a) R). reflexivity.
+  Qed.
+
+  (** rows and emptiness of the roots: all an undo needs to know about the state before the adds *)
+  Definition shape (rf : list sentry) : list (nat * bool) := map (fun e => (fst e, is_none (snd e))) rf.
+  Fixpoint shcarry (sh : list (nat * bool)) (r : nat) : list (nat * bool) * nat :=
+    match sh with
+    | [] => ([], r)
+    | (r', _) :: rest => if Nat.eqb r' r then shcarry rest (S r) else (sh, r)
+    end.
+  Definition shape_add (sh : list (nat * bool)) : list (nat * bool) :=
+    let r := shcarry sh 0 in (snd r, false) :: fst r.
+
+  Lemma shcarry_scarry (rf : list sentry) : forall r x,
+    exists y, shcarry (shape rf) r = (shape (fst (scarry rf r (Some x))), fst (snd (scarry rf r (Some x)))) /\
+              snd (snd (scarry rf r (Some x))) = Some y.
+  Proof.
+    induction rf as [|[r' t'] rf IH]; intros r x; [exists x; split; reflexivity|].
+    cbn [shape map shcarry scarry fst snd]. fold (shape rf).
+    destruct (Nat.eqb r' r).
+    - destruct t' as [c|]; cbn [join]; apply IH.
+    - exists x. split; reflexivity.
+  Qed.
+
+  Lemma shape_sadd rf a : shape (sadd rf (Some a)) = shape_add (shape rf).
+  Proof.
+    unfold sadd, shape_add. cbn [compress].
+    destruct (shcarry_scarry rf 0 (CLeaf a)) as (y & E & Ey). rewrite E. cbn [fst snd].
+    destruct (scarry rf 0 (Some (CLeaf a))) as [rest [j T]]. cbn [fst snd] in *. subst T. reflexivity.
+  Qed.
+
+  Fixpoint undo_sadds (sh : list (nat * bool)) (q : nat) (rf' : list sentry) : list sentry :=
+    match q with
+    | O => rf'
+    | S q' => unsadd (map snd sh) (undo_sadds (shape_add sh) q' rf')
+    end.
+
+  Lemma flags_shape rf : map snd (shape rf) = flags rf.
+  Proof. unfold shape, flags. rewrite map_map. reflexivity. Qed.
+
+  (** the reversed stripped forest of a state *)
+  Definition rforest (s : slots H) : list sentry := map strip (rev (forest HO s)).
+
+  Lemma rforest_snoc s x : rforest (s ++ [x]) = sadd (rforest s) x.
+  Proof.
+    unfold rforest, sadd. pose proof (forest_snoc H HO s x) as F. cbv zeta in F. rewrite F.
+    rewrite (scarry_carry (rev (forest HO s)) 0 (N.of_nat (length s))). reflexivity.
+  Qed.
+
+  Theorem undo_sadds_spec adds : forall s,
+    undo_sadds (shape (rforest s)) (length adds) (rforest (s ++ map Some adds)) = rforest s.
+  Proof.
+    induction adds as [|a adds IH]; intros s; [cbn; rewrite app_nil_r; reflexivity|].
+    cbn [length undo_sadds map]. change (Some a :: map Some adds) with ([Some a] ++ map Some adds).
+    rewrite app_assoc, <- (shape_sadd (rforest s) a), <- (rforest_snoc s (Some a)), IH, flags_shape,
+      rforest_snoc.
+    apply unsadd_sadd.
+  Qed.
+
+  (** offsets are determined by the rows *)
+  Fixpoint relo (lo : N) (l : list sentry) : list entry :=
+    match l with
+    | [] => []
+    | (k, t) :: r => (k, lo, t) :: relo (lo + N.of_nat (2 ^ k)) r
+    end.
+
+  Lemma trees_relo k : forall lo (s : slots H), relo lo (map strip (trees HO k lo s)) = trees HO k lo s.
+  Proof.
+    induction k as [|k IH]; intros lo s.
+    - rewrite trees_0. destruct (1 <=? length s); reflexivity.
+    - rewrite trees_S. destruct (2 ^ S k <=? length s); [|apply IH].
+      cbn [map relo]. unfold strip at 1. cbn [fst snd]. rewrite IH. reflexivity.
+  Qed.
+
+  Lemma forest_relo s : relo 0 (rev (rforest s)) = forest HO s.
+  Proof. unfold rforest. rewrite <- map_rev, rev_involutive. apply trees_relo. Qed.
+
+  (** ** the class-level undo of a block: from the forest after the block, the number of additions,
+      the rows and emptiness of the roots after the deletions, and the coordinates and hashes of
+      the deleted leaves *)
+  Definition class_undo (F' : list entry) (sh : list (nat * bool)) (numAdds : nat)
+             (D : list (nat * N * H)) : list entry :=
+    map (graft_entry HO D) (relo 0 (rev (undo_sadds sh numAdds (map strip (rev F'))))).
+
+  Theorem class_undo_spec (s : slots H) (dels adds : list H) :
+    class_undo (forest HO (apply_block HO s dels adds)) (shape (rforest (kill HO dels s)))
+               (length adds) (deleted_leaves HO dels s) = forest HO s.
+  Proof.
+    unfold class_undo, apply_block. fold (rforest (kill HO dels s ++ map Some adds)).
+    rewrite undo_sadds_spec, forest_relo. apply forest_graft.
+  Qed.
+
+  (** a block is injective on classes given what [Undo] is told *)
+  Theorem block_class_injective (s1 s2 : slots H) (d1 a1 d2 a2 : list H) :
+    equiv HO (apply_block HO s1 d1 a1) (apply_block HO s2 d2 a2) ->
+    length a1 = length a2 ->
+    shape (rforest (kill HO d1 s1)) = shape (rforest (kill HO d2 s2)) ->
+    deleted_leaves HO d1 s1 = deleted_leaves HO d2 s2 ->
+    equiv HO s1 s2.
+  Proof.
+    intros [A B] La Sh De. split.
+    - unfold apply_block in A. rewrite !app_length, !map_length, !length_kill in A. lia.
+    - rewrite <- (class_undo_spec s1 d1 a1), <- (class_undo_spec s2 d2 a2), B, La, Sh, De. reflexivity.
+  Qed.
+End Uncarry.
+
+Arguments strip {H} e.
+Arguments scarry {H} HO rts r t.
+Arguments peel {H} rfl i X.
+Arguments sadd {H} HO rf x.
+Arguments flags {H} rf.
+Arguments unsadd {H} fl rf'.
+Arguments shape {H} rf.
+Arguments undo_sadds {H} sh q rf'.
+Arguments rforest {H} HO s.
+Arguments relo {H} lo l.
+Arguments class_undo {H} HO F' sh numAdds D.
+
+(** the shape after the deletions from what [Undo] is told: the rows are the set bits of the
+    previous leaf count; a root is empty after the deletions iff it was empty before or the deleted
+    leaves fill its whole tree *)
+Section ShapeKnown.
+  Variable H : Type.
+  Variable HO : ops H.
+  Notation entry := (nat * N * option (ctree H))%type.
+
+  Lemma trees_wf k : forall lo (s : slots H) e c,
+    In e (trees HO k lo s) -> snd e = Some c -> wf HO c (fst (fst e)).
+  Proof.
+    induction k as [|k IH]; intros lo s e c He Hc.
+    - rewrite trees_0 in He. destruct (1 <=? length s); [|destruct He].
+      destruct He as [<-|[]]. cbn [fst snd] in *. exact (compress_wf H HO _ _ _ Hc).
+    - rewrite trees_S in He. destruct (2 ^ S k <=? length s); [|exact (IH _ _ _ _ He Hc)].
+      destruct He as [<-|He]; [|exact (IH _ _ _ _ He Hc)].
+      cbn [fst snd] in *. exact (compress_wf H HO _ _ _ Hc).
+  Qed.
+
+  Theorem shape_rows (s : slots H) :
+    map fst (shape (rforest HO s)) =
+    filter (bit (N.of_nat (length s))) (seq 0 (S (Nat.log2 (length s)))).
+  Proof.
+    unfold shape, rforest. rewrite !map_map. cbn [fst strip]. apply forest_rows.
+  Qed.
+
+  Theorem shape_kill dels (s : slots H) :
+    shape (rforest HO (kill HO dels s)) =
+    map (fun e : entry => (fst (fst e),
+                           is_none (snd e) || full (entry_dels HO dels e) (fst (fst e))))
+        (rev (forest HO s)).
+  Proof.
+    unfold shape, rforest. rewrite forest_kill, <- map_rev, !map_map.
+    apply map_ext_in. intros [[k lo] t] He. apply in_rev in He.
+    unfold strip, prune_entry, entry_dels. cbn [fst snd]. f_equal.
+    destruct t as [c|]; [|reflexivity]. cbn [oprune is_none orb].
+    assert (Hw : wf HO c k) by exact (trees_wf _ _ _ _ c He eq_refl).
+    rewrite (full_del H HO dels c k _ Hw). destruct (prune HO dels c); reflexivity.
+  Qed.
+End ShapeKnown.
+
+(** the class-level undo by computation *)
+Example ex_class_undo :
+  let dels := [Atom 3; Atom 7] in
+  let adds := [Atom 8; Atom 9; Atom 10] in
+  deleted_leaves term_ops dels ex_s = [(0%nat, 2%N, Atom 3); (0%nat, 6%N, Atom 7)] /\
+  shape (rforest term_ops (kill term_ops dels ex_s)) = [(0%nat, true); (1%nat, true); (2%nat, false)] /\
+  class_undo term_ops (forest term_ops (apply_block term_ops ex_s dels adds))
+             [(0%nat, true); (1%nat, true); (2%nat, false)] 3
+             [(0%nat, 2%N, Atom 3); (0%nat, 6%N, Atom 7)] = forest term_ops ex_s.
+Proof. cbv zeta. repeat split; vm_compute; reflexivity. Qed.
+
+(** [Undo] receives positions, not coordinates: on the layout of a state they carry the same
+    information *)
+Section DeletedPos.
+  Variable H : Type.
+  Variable HO : ops H.
+
+  Definition dpos (rows : nat) (e : nat * N * H) : N * H := (pos rows (drow e) (doff e), snd e).
+
+  Lemma map_inj_on2 {A B} (f : A -> B) (l1 : list A) : forall l2,
+    (forall x y, In x l1 -> In y l2 -> f x = f y -> x = y) -> map f l1 = map f l2 -> l1 = l2.
+  Proof.
+    induction l1 as [|a l1 IH]; intros [|b l2] Hi E; try discriminate; [reflexivity|].
+    cbn [map] in E. injection E as E1 E2.
+    rewrite (Hi a b (or_introl eq_refl) (or_introl eq_refl) E1). f_equal.
+    apply IH; [|exact E2]. intros x y Hx Hy. apply Hi; right; assumption.
+  Qed.
+
+  Lemma deleted_leaves_in_bounds dels (s : slots H) e :
+    In e (deleted_leaves HO dels s) -> in_bounds (rows_of (num_leaves s)) (drow e, doff e).
+  Proof.
+    unfold deleted_leaves. intros He. apply in_map_iff in He as (x & <- & Hx).
+    apply filter_In in Hx as [Hx _]. exact (layout_in_bounds H HO s x Hx).
+  Qed.
+
+  Theorem deleted_leaves_by_pos d1 d2 (s1 s2 : slots H) :
+    num_leaves s1 = num_leaves s2 ->
+    map (dpos (rows_of (num_leaves s1))) (deleted_leaves HO d1 s1) =
+    map (dpos (rows_of (num_leaves s1))) (deleted_leaves HO d2 s2) ->
+    deleted_leaves HO d1 s1 = deleted_leaves HO d2 s2.
+  Proof.
+    intros En. apply map_inj_on2. intros x y Hx Hy E.
+    apply deleted_leaves_in_bounds in Hx, Hy. rewrite <- En in Hy.
+    unfold dpos in E. injection E as Ep Eh.
+    pose proof (pos_inj_bounded _ _ _ Hx Hy Ep) as Ec. injection Ec as Er Eo.
+    destruct x as [[xr xo] xh], y as [[yr yo] yh]. unfold drow, doff in *. cbn [fst snd] in *.
+    congruence.
+  Qed.
+End DeletedPos.
+Arguments dpos {H} rows e.
+
+Print Assumptions needed_sub_allowed.
+Print Assumptions needed_mono.
+Print Assumptions equiv_bisim.
+Print Assumptions equiv_live_eq.
+Print Assumptions undo_equiv.
+Print Assumptions undo_equiv_depth.
+Print Assumptions canon_unique.
+Print Assumptions exp_cached_perm.
+Print Assumptions layout_npos_inj.
+Print Assumptions canon_unique_state.
+Print Assumptions exp_cached_perm_state.
+Print Assumptions prove_perm.
+Print Assumptions forest_graft.
+Print Assumptions kill_class_injective.
+Print Assumptions unsadd_sadd.
+Print Assumptions class_undo_spec.
+Print Assumptions block_class_injective.
+Print Assumptions shape_rows.
+Print Assumptions shape_kill.
+Print Assumptions deleted_leaves_by_pos.
